@@ -133,6 +133,62 @@ template<typename T> static Bytes kll_image(Rng& r, bool T_, int kind) {
   return Bytes(v.begin(), v.end());
 }
 
+// ------------------------------------------------------------------ legacy / hand-built layouts the readers still accept
+template<typename T> static void put_item(Wr& w, const T& v);
+template<> void put_item<float>(Wr& w, const float& v) { w.f32(v); }
+template<> void put_item<std::string>(Wr& w, const std::string& v) { w.str(v); }
+
+// KLL, one level stored in the FULL layout (the current writer uses the short layout for a single item):
+// byte0 preInts=5 1 serVer=1 2 family=15 3 flags 4-5 k 6 m=8 7 unused | u64 n | u16 minK u8 numLevels=1 u8 unused | u32 levels[0]=k-n | min | max | items
+template<typename T> static Bytes kll_legacy_image(Rng& r, bool, bool single) {
+  const uint16_t k = static_cast<uint16_t>(r.range(8, 40));
+  const uint32_t n = single ? 1 : static_cast<uint32_t>(r.range(2, k - 1));
+  std::vector<T> items; for (uint32_t i = 0; i < n; ++i) items.push_back(Gen<T>::make(r));
+  const T mn = *std::min_element(items.begin(), items.end()), mx = *std::max_element(items.begin(), items.end());
+  Wr w; w.u8(5).u8(1).u8(15).u8(0).u16(k).u8(8).u8(0).u64(n).u16(k).u8(1).u8(0).u32(uint32_t(k) - n);
+  put_item<T>(w, mn); put_item<T>(w, mx); for (const T& v : items) put_item<T>(w, v);
+  return w.b;
+}
+
+// classic quantiles: byte0 preLongs 1 serVer 2 family=8 3 flags (bit2 empty, bit3 compact, bit4 sorted) 4-5 k 6-7 unused | u64 n | min | max |
+// serVer 1: preLongs 5 (one more, no longer used, long after max), never compact: 2k base-buffer slots, then the levels
+// serVer 2: preLongs 2, compact flag not set but always stored compact: n mod 2k base-buffer items, then the levels whose bit is set
+// serVer 3 without the compact flag: 2k base-buffer slots, then the levels
+// form: 1, 2, 3 as above (non-empty); 11, 12 = empty serVer 1 / 2 (8 bytes); 13..16 = empty serVer 3 with preLongs 1|2 x compact flag
+template<typename T> static Bytes cq_legacy_image(Rng& r, bool, int form) {
+  const uint16_t k = static_cast<uint16_t>(1u << r.range(2, 4));
+  Wr w;
+  if (form >= 11) {
+    if (form <= 12) { w.u8(1).u8(uint8_t(form - 10)).u8(8).u8(4).u16(k).u16(0); return w.b; }
+    const uint8_t pre = (form - 13) & 1 ? 2 : 1; const bool compact = ((form - 13) & 2) != 0;
+    w.u8(pre).u8(3).u8(8).u8(uint8_t(4 | (compact ? 8 : 0))).u16(k).u16(0);
+    if (pre == 2) w.u64(0);
+    return w.b;
+  }
+  static const uint64_t pats_full[] = {0, 1, 3, 7}; static const uint64_t pats_any[] = {0, 1, 2, 5, 6};
+  const bool compact_storage = form == 2;
+  const uint64_t pat = compact_storage ? pats_any[r.below(5)] : pats_full[r.below(4)];
+  uint64_t bb = r.below(2 * k);
+  if (pat == 0 && bb == 0) bb = 1;
+  const uint64_t n = pat * 2 * k + bb, nbb = n % (2ULL * k);
+  std::vector<T> base, all;
+  for (uint64_t i = 0; i < nbb; ++i) { base.push_back(Gen<T>::make(r)); all.push_back(base.back()); }
+  std::vector<std::vector<T>> levels;
+  for (unsigned l = 0; (pat >> l) != 0; ++l) {
+    std::vector<T> lv;
+    if ((pat >> l) & 1) { for (unsigned i = 0; i < k; ++i) lv.push_back(Gen<T>::make(r)); std::sort(lv.begin(), lv.end()); for (const T& v : lv) all.push_back(v); }
+    levels.push_back(lv);
+  }
+  const T mn = *std::min_element(all.begin(), all.end()), mx = *std::max_element(all.begin(), all.end());
+  w.u8(form == 1 ? 5 : 2).u8(uint8_t(form)).u8(8).u8(0).u16(k).u16(0).u64(n);
+  put_item<T>(w, mn); put_item<T>(w, mx);
+  if (form == 1) w.u64(2 * k);   // formerly: allocated buffer size
+  for (const T& v : base) put_item<T>(w, v);
+  if (!compact_storage && pat != 0) for (uint64_t i = nbb; i < 2ULL * k; ++i) put_item<T>(w, Gen<T>::make(r));   // unused base-buffer slots
+  for (const auto& lv : levels) for (const T& v : lv) put_item<T>(w, v);
+  return w.b;
+}
+
 // ------------------------------------------------------------------ REQ
 template<typename T> static std::string req_readout(const req_sketch<T>& s) {
   std::string o = "req hra=" + std::to_string(s.is_HRA()) + " " + q_common<T>(s);
@@ -212,6 +268,12 @@ template<typename T> static void add_family(std::vector<std::vector<Target>>& fa
       f.push_back({kll_name, k.name, "bytes", b, bytes_path(kll_bytes<T>)});
       f.push_back({kll_name, k.name, "stream", b, stream_path(kll_stream<T>)});
     }
+    for (int single = 0; single < 2; ++single) {
+      BuildFn b = [single](Rng& r, bool T_) { return kll_legacy_image<T>(r, T_, single != 0); };
+      const char* name = single ? "legacy_single_item_full_layout" : "legacy_one_level_full_layout";
+      f.push_back({kll_name, name, "bytes", b, bytes_path(kll_bytes<T>)});
+      f.push_back({kll_name, name, "stream", b, stream_path(kll_stream<T>)});
+    }
     fam.push_back(f);
   }
   {
@@ -234,6 +296,14 @@ template<typename T> static void add_family(std::vector<std::vector<Target>>& fa
     for (KN k : {KN{"empty", Q_EMPTY}, KN{"single", Q_SINGLE}, KN{"few", Q_FEW}, KN{"estimation", Q_EST}, KN{"bigcfg_few", Q_BIGCFG}}) {
       const int kk = k.k;
       BuildFn b = [kk](Rng& r, bool T_) { return cq_image<T>(r, T_, kk); };
+      f.push_back({cq_name, k.name, "bytes", b, bytes_path(cq_bytes<T>)});
+      f.push_back({cq_name, k.name, "stream", b, stream_path(cq_stream<T>)});
+    }
+    for (KN k : {KN{"legacy_serial_version_1", 1}, KN{"legacy_serial_version_2", 2}, KN{"legacy_serial_version_3_not_compact", 3},
+                 KN{"legacy_serial_version_1_empty", 11}, KN{"legacy_serial_version_2_empty", 12}, KN{"legacy_v3_empty_1_long", 13},
+                 KN{"legacy_v3_empty_2_longs", 14}, KN{"legacy_v3_empty_1_long_compact", 15}, KN{"legacy_v3_empty_2_longs_compact", 16}}) {
+      const int kk = k.k;
+      BuildFn b = [kk](Rng& r, bool T_) { return cq_legacy_image<T>(r, T_, kk); };
       f.push_back({cq_name, k.name, "bytes", b, bytes_path(cq_bytes<T>)});
       f.push_back({cq_name, k.name, "stream", b, stream_path(cq_stream<T>)});
     }
